@@ -19,7 +19,7 @@ META = {
     "trusted": "reference URL parser wsverif/ref/url.py (RFC 3986 generic syntax, no urllib); simulated resolver/network",
     "rule": "case = URL string or (address outcome list, sockopt setting, timeout); distinct by that; non-trivial for URLs with a non-default component or malformed, and for address lists of length >= 2",
     "exhaustive": {"quick": True, "thorough": True},
-    "exhaustive_space": {"quick": "all 340 address outcome lists of length 1..4 over 4 outcomes; URL grammar product strided by 11", "thorough": "all 340 address lists x 3 option settings; full URL grammar product"},
+    "exhaustive_space": {"quick": "all 340 address outcome lists of length 1..4 over 4 outcomes x 2 option settings; URL grammar product strided by 11", "thorough": "all 340 address lists x 3 option settings; full URL grammar product"},
     "bounds": "fragments, empty queries, upper-case schemes and out-of-range/non-numeric ports are recorded but not judged beyond 'no network activity when refused'",
     "required_counters": ["urls_valid", "urls_refused", "address_lists"],
     "assumptions": [],
@@ -37,6 +37,8 @@ def run(res, tier, seed, shard, nshards):
     W = H.ws()
     rng = random.Random((seed << 8) ^ shard ^ 0xC18)
     H.scrub_env()
+    if shard == 0:
+        H.contracts_workload(res, ["parse_url"])
 
     def scen():
         # ---- URLs ----
@@ -67,7 +69,7 @@ def run(res, tier, seed, shard, nshards):
         k = 0
         for n in range(1, 5):
             for lst in itertools.product(outcomes, repeat=n):
-                for setting in range(1 if tier == "quick" else 3):
+                for setting in range(2 if tier == "quick" else 3):
                     k += 1
                     if k % nshards != shard:
                         continue
